@@ -41,13 +41,16 @@ def gen_relay(rng, i):
          'dirport': str(rng.choice([0, 9030])), 'flags': rng.sample(FLAGS, rng.randint(0, 4)),
          'v6': ['[2001:db8::%x]:%d' % (i, 9001)] if rng.random() < 0.3 else [], 'bw': rng.choice([None, None, 0, 100, 54321]),
          'p': rng.random() < 0.6, 'v6twice': rng.random() < 0.1,
+         'pub': rng.choice(['2030-01-01 00:00:00', '2030-01-01 00:00:00', '2029-12-31 23:59:59', '2030-01-02 12:00:00', '2038-01-19 03:14:07', '1999-09-09 09:09:09']),
          # dir-spec: "w" SP "Bandwidth=" INT [SP "Measured=" INT] [SP "Unmeasured=1"]
          'wextra': rng.choice(['', '', ' Unmeasured=1', ' Measured=804', ' Measured=7 Unmeasured=1'])}
     return r
 
 
 def render_relay(r):
-    lines = ['r %s %s %s 2030-01-01 00:00:00 %s %s %s' % (r['nick'], idhash(r['id']), 'A' * 27, r['ip'], r['orport'], r['dirport'])]
+    # (the publication time of the relay's descriptor: any order from one document to the next — a later document may list an older
+    # descriptor; the time itself is not among the attributes the property names)
+    lines = ['r %s %s %s %s %s %s %s' % (r['nick'], idhash(r['id']), 'A' * 27, r.get('pub', '2030-01-01 00:00:00'), r['ip'], r['orport'], r['dirport'])]
     typed = ['r %s %d %s %s %s' % (hexs(r['nick']), r['id'], hexs(r['ip']), hexs(r['orport']), hexs(r['dirport']))]
     for a in r['v6']:
         lines.append('a ' + a)
